@@ -1915,8 +1915,12 @@ func checkEnum(out *ev.Outcome, c Case, run func(func() *oaerrors.Validation, []
 			out.Known = append(out.Known, id)
 			return
 		}
-		if id, ok := ev.KnownOpen("enumcase_invalid_utf8_fold"); ok && !cs && matchesByInvalidUTF8Fold(data, enum) {
-			out.Known = append(out.Known, id)
+		if !cs && matchesByInvalidUTF8Fold(data, enum) {
+			// Case folding is defined on code points; invalid UTF-8 has none. Go's convention
+			// (strings.EqualFold) reads every invalid byte as U+FFFD, which makes "\xff" and
+			// "\xfe" fold-equal; a stricter reading keeps them apart. The statement does not
+			// settle it, so such pairs are outside the domain.
+			out.Excluded = append(out.Excluded, "case-folding-over-invalid-utf8")
 			return
 		}
 	} else if data.K == "nil" {
@@ -2004,12 +2008,12 @@ func matchesByStringerFold(data, enum TV) bool {
 // that strings.EqualFold calls equal (it decodes every invalid byte to U+FFFD)
 // although they differ by more than case (values.go:60).
 func matchesByInvalidUTF8Fold(data, enum TV) bool {
-	if data.K != "string" {
+	if !isStrKind(data.K) {
 		return false
 	}
 	for _, el := range enum.Items {
 		a, b := string(data.V), string(el.V)
-		if el.K == "string" && (!utf8.ValidString(a) || !utf8.ValidString(b)) && strings.EqualFold(a, b) && !foldEq(a, b) {
+		if isStrKind(el.K) && (!utf8.ValidString(a) || !utf8.ValidString(b)) && strings.EqualFold(a, b) && !foldEq(a, b) {
 			return true
 		}
 	}
